@@ -322,6 +322,18 @@ def check_driver(ctx, drv, pen):
         if F is None:
             ctx.undecided("C03 DRIVER", drv.qualname, drv.loc(), "the returned scores are not a view of an allocated table")
             return
+        if "published" not in seen:
+            seen.add("published")
+            out0 = rv.items[0]
+            oi = out0.meta.get("index") if isinstance(out0, Num) else None
+            ok_out = False
+            found = "the whole table" if isinstance(out0, Num) and out0.arr is F and not oi else "?"
+            if oi is not None and len(oi) == 1 and isinstance(oi[0], SliceV):
+                sl = oi[0]
+                lo_c = sl.lo.nf.as_const() if isinstance(sl.lo, Num) else None
+                ok_out = lo_c == 1 and isinstance(sl.hi, NoneV) and isinstance(sl.step, NoneV)
+                found = f"F[{'' if isinstance(sl.lo, NoneV) else valkey(sl.lo)}:{'' if isinstance(sl.hi, NoneV) else valkey(sl.hi)}]"
+            ctx.check(ok_out, "C03.a DP-COVER", "table|published", drv.loc(), "the returned scores are F[1:], the optimal penalised saving of every non-empty prefix", found=found, expected="F[1:]")
         tcode, rng = loop_time(loop)
         lv = Atom("lv", loop.lid)
         # which branch is this path on?
@@ -353,6 +365,11 @@ def check_driver(ctx, drv, pen):
             n_not += 1
         one_path(ctx, ex, p, drv, loop, F, rv, st, possible, first, tcode, rng, m, M, t)
     ctx.check(n_possible > 0, "C03.a DP-COVER", "collective-branch", drv.loc(), "there is a path on which collective anomalies are evaluated")
+    # anti-vacuity of IDX-GATHER: every outcome of the three-way maximum has a path that records (or not) its start
+    got = {o.key for o in ctx.obs if o.rule == "C03.d IDX-GATHER" and o.key.startswith("start-record|option")}
+    for k, what in (("start-record|option1", "the collective option wins (argmax == 1)"), ("start-record|option2", "the point option wins (argmax == 2)"), ("start-record|option0", "no anomaly wins")):
+        if k not in got:
+            ctx.violation("C03.d IDX-GATHER", k + "|reachable", drv.loc(), f"no path on which {what} is distinguished: the optimal start of that outcome is never recorded (or recorded under another outcome's test)", expected="one branch per outcome of the maximum over (no anomaly, collective, point)")
 
 
 def one_path(ctx, ex, p, drv, loop, F, rv, st, possible, first, tcode, rng, m, M, t):
@@ -668,6 +685,12 @@ def check_backtracker(ctx, bt: FuncInfo):
             ctx.check(nf_equal(hi_nf, iin + 1), rule, k + "|end", e.loc(), "the anomaly ends at i + 1 (exclusive end after the current sample)", found=repr(hi_nf), expected="i + 1")
             if is_point:
                 ctx.check(nf_equal(hi_nf - lo_nf, NF.const(1)), rule, k + "|length", e.loc(), "a point anomaly has length exactly 1", found=repr(hi_nf - lo_nf))
+                # exactness: (i, i+1) is recorded only when the optimal start recorded for position i IS i
+                from ..affine import path_cases, satisfiable
+
+                cs, unk = path_cases([(_cond_strip_int(c), v) for c, v in p.facts])
+                exact = all((not satisfiable(cc + [Lin.of(start_i - iin - 1)])) and (not satisfiable(cc + [Lin.of(iin - start_i - 1)])) for cc in cs)
+                ctx.check(exact, rule, k + "|exact", e.loc(), "a point anomaly at i is recorded only when the optimal start of position i is i itself", found=f"branch facts {[repr(c) + '=' + str(v) for c, v in p.facts][-3:]} do not force starts[i] == i", expected="starts[i] == i under the branch condition")
                 ctx.check(isinstance(body_i, Num) and nf_equal(_strip_int(body_i.nf), iin - 1), rule, k + "|resume", e.loc(), "after a point anomaly the scan resumes at i - 1", found=repr(body_i))
             else:
                 ctx.check(entails(facts_i, Lin.of(hi_nf - lo_nf - 2)), rule, k + "|not-a-point", e.loc(), "an event recorded as collective has at least 2 samples (length-1 events are point anomalies, which ignore_point_anomalies must be able to omit)", found=f"({lo_nf!r}, {hi_nf!r})", expected="hi - lo >= 2 under the branch condition")
@@ -676,6 +699,14 @@ def check_backtracker(ctx, bt: FuncInfo):
         if not apps and "none" not in seen:
             seen.add("none")
             ctx.check(isinstance(body_i, Num) and nf_equal(_strip_int(body_i.nf), iin - 1), rule, "no-anomaly|resume", bt.loc(lp.node), "without an anomaly at i the scan moves to i - 1", found=repr(body_i))
+            # completeness: nothing is skipped - the branch without a record is unreachable when position i carries an
+            # optimal start 0 <= starts[i] <= i (positions without an anomaly carry NaN, which fails every comparison)
+            from ..affine import path_cases, satisfiable
+
+            cs, unk = path_cases([(_cond_strip_int(c), v) for c, v in p.facts])
+            dom = [Lin.of(iin - start_i), Lin.of(start_i), Lin.of(iin)]
+            skipped = any(satisfiable(cc + dom) for cc in cs)
+            ctx.check(not skipped, rule, "no-anomaly|complete", bt.loc(lp.node), "every position that carries an optimal start (0 <= starts[i] <= i) yields a record: the silent branch is reachable only for NaN", found=f"silent branch facts {[repr(c) + '=' + str(v) for c, v in p.facts][-3:]}", expected="unsatisfiable together with 0 <= starts[i] <= i")
     for k in ("tuple|collective", "tuple|point"):
         if k not in seen:
             ctx.violation(rule, k, bt.loc(), f"backtracking never records a {k.split('|')[1]} anomaly")
